@@ -33,6 +33,9 @@ FORBIDDEN = re.compile(r"\b(sorry|admit|native_decide|bv_decide|implemented_by|u
 # generated model files beyond Consts.lean (used by every model) that a property's model depends on
 GENERATED_FOR = {**{f"C{n}": ("SimConsts.lean",) for n in range(14, 20)}, "C20": ("Ffi.lean",)}
 
+# properties whose theorems reason about floating point through MbVerif/Fp.lean
+FP_PIDS = {"C02", "C03", "C06", "C12", "C13"}
+
 sys.path.insert(0, HERE)
 import props  # noqa: E402
 
@@ -341,6 +344,16 @@ def main():
             else:
                 p = write_replay(pid, "monitor_" + hashlib.sha256(key.encode()).hexdigest()[:10], text)
                 violations.append((p, ""))
+        if pid in FP_PIDS and not a.replay:
+            # the rational float model against the host's IEEE arithmetic (Lean's native Float / Float32)
+            rcf, outf = sh([DBIN, "fpcheck", "20000" if tier == "quick" else "400000", str(seed % 1000003 + 1)], timeout=1800)
+            m = re.search(r"fpcheck operations=(\d+) mismatches=(\d+) skipped_div_by_negative_zero=(\d+)", outf)
+            result.setdefault("extra", {})["fp_model_vs_host_floats"] = (
+                {"operations": int(m.group(1)), "mismatches": int(m.group(2)), "skipped_div_by_negative_zero": int(m.group(3))}
+                if m else {"error": outf[-300:]})
+            if rcf != 0 or not m or int(m.group(2)) != 0:
+                result.setdefault("model_disagreements", []).append(
+                    "MbVerif/Fp.lean disagrees with the host's floating point (mbdriver fpcheck):\n" + outf[-1500:])
         dis = result.get("model_disagreements", [])
         if dis and not violations:
             p = write_replay(pid, "correspondence", "correspondence (model vs implementation) no longer checks for "
